@@ -107,9 +107,12 @@ OutVal(d, env, i, o) ==
     LET fn == d.funcs[i] IN
     IF HasMapInputs(fn)
     THEN LET sh == OutShape(d, env, i)
-         IN  BuildArr(sh, <<>>, [t \in IndexSet(sh) |-> Term(o, ElemArgs(d, env, i, t) \o InternalAtoms(fn, t))])
+         IN  BuildArr(sh, <<>>, [t \in IndexSet(sh) |->
+                 IF ReturnsNone(d, i) THEN NoneT                       \* None is an ordinary (stored, reloadable) element value
+                 ELSE Term(o, ElemArgs(d, env, i, t) \o InternalAtoms(fn, t))])
     ELSE LET args == [k \in DOMAIN fn.params |-> BoundOrEnv(d, env, i, fn.params[k])]
-         IN  IF Len(fn.internal) = 0 THEN Term(o, args)
+         IN  IF ReturnsNone(d, i) THEN NoneT
+             ELSE IF Len(fn.internal) = 0 THEN Term(o, args)
              ELSE BuildArr(fn.internal, <<>>,
                            [t \in IndexSet(fn.internal) |-> Term(o, args \o [m \in DOMAIN t |-> IdxAtom(t[m])])])
 
